@@ -67,6 +67,14 @@ func runC05(c *Ctx) {
 	c.Floor("C05.S1-payload-coverage", 18)
 
 	// ---- S2 same payload function on both sides -----------------------------------------------
+	// the verifier and the unexported helpers only it calls
+	verifySide := map[*ssa.Function]bool{verify.SSA: true}
+	for _, st := range c.CallsInl(verify.SSA, Any(), 2) {
+		if callee := st.In.Common().StaticCallee(); callee != nil && samePkgBody(verify.SSA, callee) && callee.Object() != nil && !callee.Object().Exported() &&
+			callee != adPay.SSA && callee != epPay.SSA && c.onlyCalledFrom(callee, verifySide) {
+			verifySide[callee] = true
+		}
+	}
 	for _, pf := range []*Fn{adPay, epPay} {
 		signers, verifiers := 0, 0
 		for _, f := range c.Funcs(schemaPkg) {
@@ -74,7 +82,7 @@ func runC05(c *Ctx) {
 				if cs.In.Common().StaticCallee() != pf.SSA {
 					continue
 				}
-				isVerify := topFunc(cs.Fn) == verify.SSA
+				isVerify := verifySide[topFunc(cs.Fn)]
 				if isVerify {
 					verifiers++
 				} else {
@@ -148,10 +156,11 @@ func bufOf(x *X) *X {
 func c05Verify(c *Ctx, verify, adPay, epPay *Fn) {
 	fn := verify.SSA
 	key := verify.Name
-	cons := c.Calls(fn, Call("record.ConsumeTypedEnvelope"))
-	var adCons, epCons *CallSite
+	// (the verifier may be split into unexported helpers: sites are looked up through them, in VerifySignature's terms)
+	cons := c.CallsInl(fn, Call("record.ConsumeTypedEnvelope"), 2)
+	var adCons, epCons *InlSite
 	for i := range cons {
-		if _, m := Match(Call("record.ConsumeTypedEnvelope", Field("Signature", Op("param", ""))), cons[i].X); m {
+		if _, m := Match(Call("record.ConsumeTypedEnvelope", Field("Signature", ParamLike())), cons[i].X); m {
 			adCons = &cons[i]
 		} else {
 			epCons = &cons[i]
@@ -161,8 +170,8 @@ func c05Verify(c *Ctx, verify, adPay, epPay *Fn) {
 		c.Bad("C05.S3-verify-gates", key+" › consume advertisement envelope", fn.Pos(), "VerifySignature does not consume the advertisement's signature envelope")
 		return
 	}
-	var adCall, epCall *CallSite
-	for _, cs := range c.Calls(fn, Any()) {
+	var adCall, epCall *InlSite
+	for _, cs := range c.CallsInl(fn, Any(), 2) {
 		cs := cs
 		if cs.In.Common().StaticCallee() == adPay.SSA {
 			adCall = &cs
@@ -170,6 +179,10 @@ func c05Verify(c *Ctx, verify, adPay, epPay *Fn) {
 		if cs.In.Common().StaticCallee() == epPay.SSA {
 			epCall = &cs
 		}
+	}
+	if adCall == nil {
+		c.Bad("C05.S3-verify-gates", key+" › payload recomputed", fn.Pos(), "VerifySignature does not recompute the advertisement payload")
+		return
 	}
 	adRec := adCons.X.Args[1]
 	adEq := Call("bytes.Equal", Extract("0", Is(c.E(adCall.In.(*ssa.Call)))), Field("advID", Is(adRec)))
@@ -186,7 +199,14 @@ func c05Verify(c *Ctx, verify, adPay, epPay *Fn) {
 		_, g2 := c.GuardedB(b, Or(adEq, adEq2), true)
 		c.Check(g2, "C05.S3-verify-gates", k+" › payload equal", ret.Pos(), "dominated by bytes.Equal(recomputed payload, sealed payload)", "success although the sealed payload was not compared with the recomputed one")
 		_, g3 := c.GuardedB(b, EqNil(Extract("1", signerCall)), true)
-		_, idOK := Match(Extract("0", signerCall), c.RetX(ret, 0))
+		idOK := true
+		ls := c.Leaves(c.RetX(ret, 0), ret)
+		for _, l := range ls {
+			if _, m := Match(Extract("0", signerCall), l); !m {
+				idOK = false
+			}
+		}
+		idOK = idOK && len(ls) > 0
 		c.Check(g3 && idOK, "C05.S3-verify-gates", k+" › returns the envelope signer", ret.Pos(), "returns IDFromPublicKey(envelope.PublicKey) of the consumed envelope", "returned ID is not the signer of the consumed envelope")
 	}
 	// recomputed with the format the sealed payload has
@@ -197,7 +217,7 @@ func c05Verify(c *Ctx, verify, adPay, epPay *Fn) {
 		return
 	}
 	// loop continuation edges
-	body := epCons.In.Block()
+	body := epCons.Outer().Block()
 	var head *ssa.BasicBlock
 	for d := body; d != nil; d = d.Idom() {
 		for _, p := range d.Preds {
@@ -248,32 +268,29 @@ func c05Verify(c *Ctx, verify, adPay, epPay *Fn) {
 		c.OK("C05.S3-ep-signer-compared", k+" › signer compared", epCons.In.Pos(), "continuation dominated by envelope signer == expected signer")
 		// expected signer: ad signer for the main provider's entry, the entry's decoded ID otherwise
 		exp := b["expect"]
-		var srcs []*X
-		flatten(exp, &srcs, 0)
 		nMain, nOwn := 0, 0
-		for _, s := range srcs {
+		okGuard := true
+		for _, l := range c.LeavesF(exp, p.Instrs[len(p.Instrs)-1]) {
+			s := l.Val
 			if _, m := Match(Extract("0", Call("peer.IDFromPublicKey", Field("PublicKey", Extract("0", Is(c.E(adCons.In.(*ssa.Call))))))), s); m {
 				nMain++
 			} else if _, m := Match(Extract("0", Call("peer.Decode", Field("ID", Any()))), s); m {
 				nOwn++
+				// the own-ID alternative is taken exactly when p.ID != ad.Provider
+				g := false
+				for _, f := range l.Facts {
+					if _, m := Match(Bin("==", Field("ID", Any()), Field("Provider", Any())), f.Cond); m && !f.Val {
+						g = true
+					}
+				}
+				if !g {
+					okGuard = false
+				}
 			} else {
 				nMain = -100
 			}
 		}
-		okExp := nMain == 1 && nOwn == 1
-		// the own-ID edge is taken exactly when p.ID != ad.Provider
-		if okExp {
-			if ph, isPhi := exp.V.(*ssa.Phi); isPhi {
-				for i, e := range ph.Edges {
-					if _, m := Match(Extract("0", Call("peer.Decode", Field("ID", Any()))), c.E(e)); m {
-						_, g := c.GuardedB(ph.Block().Preds[i], Bin("==", Field("ID", Any()), Field("Provider", Any())), false)
-						if !g {
-							okExp = false
-						}
-					}
-				}
-			}
-		}
+		okExp := nMain == 1 && nOwn == 1 && okGuard
 		c.Check(okExp, "C05.S3-ep-signer-compared", k+" › expected signer", epCons.In.Pos(),
 			"expected signer = the advertisement's signer for the main provider's entry, the entry's own decoded ID otherwise", "the expected signer of an extended-provider entry is not (advertisement signer for the main provider's entry, entry's own ID otherwise): "+abbreviate(exp.String()))
 	}
